@@ -106,8 +106,12 @@ def run_thorough(prop, pc, units, seed):
         for fu in concurrent.futures.as_completed(futs):
             u, sd, rl = futs[fu]
             r = fu.result()
-            out["stability"].append({"unit": u, "seed": sd, "rlimit": rl, "status": r["status"], "failures": len(r["failures"]),
-                                     "failing": [f["fn"] + ": " + f["clause"][:80] for f in r["failures"]][:5]})
+            # obligations that are listed findings fail on every seed by definition: they are not instability
+            known = hqcheck.load_known()
+            unexpected = [f for f in r["failures"] if not match_known(known, prop, u, {"fn": f["fn"], "clause": f.get("clause"), "failed_requires": f.get("failed_requires"), "msg": f.get("msg")}, any_prop=True)]
+            out["stability"].append({"unit": u, "seed": sd, "rlimit": rl, "status": r["status"], "failures": len(unexpected),
+                                     "listed_findings_failing": len(r["failures"]) - len(unexpected),
+                                     "failing": [f["fn"] + ": " + f["clause"][:80] for f in unexpected][:5]})
     out["unstable_units"] = sorted({x["unit"] for x in out["stability"] if x["status"] != "ok" or x["failures"]})
     # (c) vacuity: every function with a `requires` gets a twin with the same precondition and body `assert(false)`; the twin must fail
     out["vacuity"] = {}
